@@ -1,6 +1,7 @@
 package main
 
 import (
+	"crypto/sha256"
 	"encoding/json"
 	"fmt"
 	"os"
@@ -121,17 +122,17 @@ func selfTestImpl(prop, repo string) interface{} {
 				return
 			}
 			o.applied = true
-			cmd := exec.Command(exe, "-property", prop, "-tier", "quick", "-repo", src, "-verif", filepath.Join(tmp, "v"))
-			out, _ := cmd.CombinedOutput()
-			o.fired = cmd.ProcessState != nil && cmd.ProcessState.ExitCode() != 0
-			for _, l := range strings.Split(string(out), "\n") {
-				if strings.Contains(l, "VIOLATED") || strings.Contains(l, "UNDECIDED") || strings.Contains(l, "ANCHOR-LOST") || strings.Contains(l, "LOAD FAILED") || strings.Contains(l, "PANIC") {
-					o.detail = l
-					if len(o.detail) > 260 {
-						o.detail = o.detail[:260]
-					}
-					break
-				}
+			// every property's quick tier on one load of the variant (-allprops), remembered per tree contents and checker
+			// binary: the twenty thorough checks analyse each variant once between them. The memory is an optimisation
+			// only — a missing or unreadable entry is recomputed.
+			verdicts := selfTestVerdicts(exe, src, filepath.Join(tmp, "v"))
+			if vd, ok := verdicts[prop]; ok {
+				o.fired, o.detail = vd.Fired, vd.Detail
+			} else {
+				cmd := exec.Command(exe, "-property", prop, "-tier", "quick", "-repo", src, "-verif", filepath.Join(tmp, "v"))
+				out, _ := cmd.CombinedOutput()
+				o.fired = cmd.ProcessState != nil && cmd.ProcessState.ExitCode() != 0
+				o.detail = firstAlarmLine(string(out))
 			}
 			res[i] = o
 		}(i, v)
@@ -175,4 +176,88 @@ func selfTestImpl(prop, repo string) interface{} {
 func fileExists(p string) bool {
 	_, err := os.Stat(p)
 	return err == nil
+}
+
+type selfVerdict struct {
+	Fired  bool
+	Detail string
+}
+
+func firstAlarmLine(out string) string {
+	for _, l := range strings.Split(out, "\n") {
+		if strings.Contains(l, "VIOLATED") || strings.Contains(l, "UNDECIDED") || strings.Contains(l, "ANCHOR-LOST") || strings.Contains(l, "LOAD FAILED") || strings.Contains(l, "PANIC") {
+			if len(l) > 260 {
+				l = l[:260]
+			}
+			return l
+		}
+	}
+	return ""
+}
+
+// selfTestVerdicts: property -> verdict of the quick tier on the tree in src, from the memory or from one -allprops run.
+func selfTestVerdicts(exe, src, scratch string) map[string]selfVerdict {
+	h := sha256.New()
+	fmt.Fprintf(h, "exe=%s\n", exeIdentity())
+	ents, _ := os.ReadDir(src)
+	for _, e := range ents {
+		if e.IsDir() {
+			continue
+		}
+		if b, err := os.ReadFile(filepath.Join(src, e.Name())); err == nil {
+			fmt.Fprintf(h, "%s %d %x\n", e.Name(), len(b), sha256.Sum256(b))
+		}
+	}
+	file := ""
+	if cdir, err := os.UserCacheDir(); err == nil {
+		cdir = filepath.Join(cdir, "mqttcheck-self")
+		if os.MkdirAll(cdir, 0o755) == nil {
+			file = filepath.Join(cdir, fmt.Sprintf("%x.json", h.Sum(nil)))
+		}
+	}
+	if file != "" {
+		if b, err := os.ReadFile(file); err == nil {
+			var m map[string]selfVerdict
+			if json.Unmarshal(b, &m) == nil && len(m) >= 20 {
+				return m
+			}
+		}
+	}
+	cmd := exec.Command(exe, "-allprops", "-repo", src, "-verif", scratch)
+	out, _ := cmd.CombinedOutput()
+	m := map[string]selfVerdict{}
+	cur, buf := "", []string{}
+	for _, l := range strings.Split(string(out), "\n") {
+		switch {
+		case strings.HasPrefix(l, "ALLPROPS-BEGIN "):
+			cur, buf = strings.TrimPrefix(l, "ALLPROPS-BEGIN "), nil
+		case strings.HasPrefix(l, "ALLPROPS-END "):
+			f := strings.Fields(l)
+			if len(f) == 3 && f[1] == cur {
+				m[cur] = selfVerdict{Fired: f[2] != "0", Detail: firstAlarmLine(strings.Join(buf, "\n"))}
+			}
+			cur = ""
+		default:
+			if cur != "" {
+				buf = append(buf, l)
+			}
+		}
+	}
+	if len(m) < 20 {
+		return map[string]selfVerdict{} // the sub-process did not get through (crash): fall back to one run per property
+	}
+	if file != "" {
+		if b, err := json.Marshal(m); err == nil {
+			tmp := fmt.Sprintf("%s.%d", file, os.Getpid())
+			if os.WriteFile(tmp, b, 0o644) == nil {
+				os.Rename(tmp, file)
+			}
+		}
+		if list, err := os.ReadDir(filepath.Dir(file)); err == nil && len(list) > 3000 {
+			for _, e := range list[:len(list)-2500] {
+				os.Remove(filepath.Join(filepath.Dir(file), e.Name()))
+			}
+		}
+	}
+	return m
 }
